@@ -97,3 +97,16 @@ def validate(records, scratch):
              "events": sum(len(ev) for _, ev in usable), "skipped": skipped, "tlc_states": dist, "tlc_transitions": gen,
              "truncated_tests": sum(1 for r in records if r.get("truncated"))}
     return results, stats
+
+
+def revalidate(events):
+    """Validates one stored scope-event trace again (used by ./check C15 --replay)."""
+    import shutil
+
+    scratch = tempfile.mkdtemp(prefix="verif-ctx-")
+    try:
+        res, _ = validate([{"test": "replay", "start": [True, True], "truncated": False, "events": events}], scratch)
+        r = res[0]
+        return None if r["verdict"] == "ok" else ("rejected at event", r["line"], r["expected_state"])
+    finally:
+        shutil.rmtree(scratch, ignore_errors=True)
